@@ -439,6 +439,8 @@ type Clause struct {
 }
 
 type LoopSpec struct {
+	Over       string // source text of the loop header this annotation was written for ("range xs", "for i < n"), optional
+	Src        string
 	Ordinal    int
 	Invariants []Clause
 	Hints      []Clause // proved (then assumed) at every back edge before the invariants: proof decomposition only
@@ -776,7 +778,12 @@ func (db *SpecDB) ParseSpecTextIn(lines []string, srcs []string, pkg string) err
 			if _, err := fmt.Sscanf(strings.TrimPrefix(rest, "#"), "%d", &ord); err != nil {
 				return fmt.Errorf("%s: loop needs '#<ordinal>'", l.src)
 			}
-			curLoop = &LoopSpec{Ordinal: ord}
+			curLoop = &LoopSpec{Ordinal: ord, Src: l.src}
+			// optional tag "over <text of the loop header>": lets the annotations follow their loop when loops are
+			// inserted or removed before it (LoopText)
+			if i := strings.Index(rest, " over "); i > 0 {
+				curLoop.Over = strings.TrimSpace(rest[i+len(" over "):])
+			}
 			cur.Loops[ord] = curLoop
 		case "invariant":
 			if curLoop == nil {
